@@ -433,15 +433,19 @@ Proof.
     replace (ins c a) with c by (unfold ins; now rewrite E). auto.
 Qed.
 
-Section Repaired.
-  Variable domain : list hv.
+Lemma prefix_app_l (a b c : list hv) : is_prefix (a ++ b) c -> is_prefix a c.
+Proof. intros [x ->]. exists (b ++ x). now rewrite app_assoc. Qed.
 
-  Definition rdinv (d : dstate) : Prop := fold_left ins (src d) (cache d) = dedup domain.
+Section Repaired.
+  (* [w]: what the cache will eventually hold -- the de-duplicated domain *)
+  Variable w : list hv.
+
+  Definition rdinv (d : dstate) : Prop := fold_left ins (src d) (cache d) = w.
 
   Definition rhinv (d : dstate) (st : rstate) (tr : list hv) : Prop :=
     match st with
-    | RLive i => length tr = i /\ is_prefix tr (cache d)
-    | RDone => tr = dedup domain
+    | RLive i pend => length tr = i /\ is_prefix (tr ++ pend) (cache d)
+    | RDone => tr = w
     | RClosed => is_prefix tr (cache d)
     end.
 
@@ -452,12 +456,12 @@ Section Repaired.
     - rewrite E. apply prefix_app; auto.
   Qed.
 
-  Lemma rhinv_prefix d st tr : rdinv d -> rhinv d st tr -> is_prefix tr (dedup domain).
+  Lemma rhinv_prefix d st tr : rdinv d -> rhinv d st tr -> is_prefix tr w.
   Proof.
     unfold rdinv. intros Hd H.
-    assert (P : is_prefix (cache d) (dedup domain)) by (rewrite <- Hd; apply fold_ins_prefix).
+    assert (P : is_prefix (cache d) w) by (rewrite <- Hd; apply fold_ins_prefix).
     destruct st; simpl in H.
-    - destruct H. eapply prefix_trans; eauto.
+    - destruct H as [_ H]. apply prefix_app_l in H. eapply prefix_trans; eauto.
     - subst. apply prefix_refl.
     - eapply prefix_trans; eauto.
   Qed.
@@ -466,18 +470,26 @@ Section Repaired.
     rdinv d -> rhinv d st tr -> rstep d st = (o, d', st') ->
     rdinv d' /\ rhinv d' st' (tr ++ yielded o) /\ exists x, cache d' = cache d ++ x.
   Proof.
-    unfold rdinv. intros Hd Hh H. destruct st as [i| |]; simpl in H, Hh.
-    - destruct Hh as [Hl Hp]. destruct (nth_error (cache d) i) as [v|] eqn:En.
+    unfold rdinv. intros Hd Hh H. destruct st as [i pend| |]; simpl in H, Hh.
+    - destruct Hh as [Hl Hp]. destruct pend as [|v p].
+      + rewrite app_nil_r in Hp. destruct (skipn i (cache d)) as [|v p] eqn:Es.
+        * assert (Hlen : (length (cache d) <= i)%nat).
+          { destruct (Nat.le_gt_cases (length (cache d)) i) as [L|L]; auto.
+            assert (length (skipn i (cache d)) = length (cache d) - i)%nat by apply skipn_length.
+            rewrite Es in H0. simpl in H0. lia. }
+          assert (tr = cache d) by (apply prefix_length_eq; auto; lia). subst tr.
+          destruct (rpull (cache d) (src d)) as [[[v|] c] r] eqn:Ep.
+          -- injection H as <- <- <-. apply rpull_some in Ep. destruct Ep as [-> Ep]. simpl.
+             split; [congruence|]. split; [|eauto]. rewrite app_length. simpl. split; [lia|].
+             rewrite app_nil_r. apply prefix_refl.
+          -- injection H as <- <- <-. apply rpull_none in Ep. destruct Ep as (-> & -> & Ep). simpl.
+             split; [congruence|]. split; [|exists []; now rewrite app_nil_r]. rewrite app_nil_r. congruence.
+        * injection H as <- <- <-. split; auto. split; [|exists []; now rewrite app_nil_r].
+          simpl. rewrite app_length. simpl. split; [lia|].
+          rewrite (prefix_is_firstn _ _ Hp), Hl. rewrite <- app_assoc. simpl. rewrite <- Es, firstn_skipn.
+          apply prefix_refl.
       + injection H as <- <- <-. split; auto. split; [|exists []; now rewrite app_nil_r].
-        simpl. rewrite app_length. simpl. split; [lia|].
-        rewrite (prefix_is_firstn _ _ Hp), Hl, <- (firstn_S_nth _ _ _ En). apply prefix_firstn.
-      + apply nth_error_None in En.
-        assert (tr = cache d) by (apply prefix_length_eq; auto; lia). subst tr.
-        destruct (rpull (cache d) (src d)) as [[[v|] c] r] eqn:Ep.
-        * injection H as <- <- <-. apply rpull_some in Ep. destruct Ep as [-> Ep]. simpl.
-          split; [congruence|]. split; [|eauto]. rewrite app_length. simpl. split; [lia|apply prefix_refl].
-        * injection H as <- <- <-. apply rpull_none in Ep. destruct Ep as (-> & -> & Ep). simpl.
-          split; [congruence|]. split; [|exists []; now rewrite app_nil_r]. rewrite app_nil_r. congruence.
+        simpl. rewrite app_length. simpl. split; [lia|]. rewrite <- app_assoc. simpl. auto.
     - injection H as <- <- <-. simpl. rewrite app_nil_r. split; auto. split; auto. exists []; now rewrite app_nil_r.
     - injection H as <- <- <-. simpl. rewrite app_nil_r. split; auto. split; auto. exists []; now rewrite app_nil_r.
   Qed.
@@ -486,9 +498,6 @@ Section Repaired.
     R_d : rdinv (rdom S);
     R_h : forall h st tr, nth_error (rhs S) h = Some (st, tr) -> rhinv (rdom S) st tr
   }.
-
-  Lemma RInv_init : RInv (rinit domain).
-  Proof. constructor; simpl; [reflexivity|intros [|h] ? ? H; discriminate]. Qed.
 
   Lemma RInv_step o S : RInv S -> RInv (rsysstep o S).
   Proof.
@@ -509,7 +518,8 @@ Section Repaired.
     - destruct (nth_error (rhs S) h) as [[st tr]|] eqn:Eh; [|constructor; auto].
       constructor; simpl; auto. intros k st2 tr2 Hk. apply nth_error_upd_inv in Hk.
       destruct Hk as [(-> & E & _)|(Hne & Hk)]; eauto.
-      injection E as -> ->. pose proof (Hh _ _ _ Eh) as Hi. destruct st; simpl in *; auto. tauto.
+      injection E as -> ->. pose proof (Hh _ _ _ Eh) as Hi. destruct st; simpl in *; auto.
+      destruct Hi as [_ Hi]. eapply prefix_app_l; eauto.
   Qed.
 
   Lemma rrun_inv ops : forall S, RInv S -> RInv (rrun ops S).
@@ -518,16 +528,68 @@ Section Repaired.
     unfold rrun. simpl. apply IH. apply RInv_step; auto.
   Qed.
 
-  Theorem cache_any_schedule_repaired ops h st tr :
-    nth_error (rhs (rrun ops (rinit domain))) h = Some (st, tr) ->
-    (st = RDone -> tr = dedup domain) /\ is_prefix tr (dedup domain).
+  (* a fresh handle run to exhaustion: what one whole evaluation does with a variable *)
+  Lemma rstep_out d st o d' st' : rstep d st = (o, d', st') ->
+    match o with
+    | OYield _ => exists i p, st' = RLive i p
+    | OStop => (exists i p, st = RLive i p) -> st' = RDone /\ src d' = []
+    | OErr => False
+    end.
   Proof.
-    intros Hn. pose proof (rrun_inv ops _ RInv_init) as [Hd Hh].
-    pose proof (Hh _ _ _ Hn) as Hi. split.
-    - intros ->. exact Hi.
-    - eapply rhinv_prefix; eauto.
+    destruct st as [i [|v p]| |]; simpl.
+    - destruct (skipn i (cache d)) as [|v p].
+      + destruct (rpull (cache d) (src d)) as [[[v|] c] r] eqn:Ep; intros H; injection H as <- <- <-; eauto.
+        intros _. apply rpull_none in Ep. simpl. tauto.
+      + intros H; injection H as <- <- <-; eauto.
+    - intros H; injection H as <- <- <-; eauto.
+    - intros H; injection H as <- <- <-. intros (i & p & E). discriminate.
+    - intros H; injection H as <- <- <-. intros (i & p & E). discriminate.
   Qed.
+
+  Lemma rexhaust_inv fuel : forall d i p tr,
+    rdinv d -> rhinv d (RLive i p) tr -> (fuel > length w - length tr)%nat ->
+    rexhaust fuel d (RLive i p) tr = Some (w, {| cache := w; src := [] |}).
+  Proof.
+    induction fuel as [|f IH]; intros d i p tr Hd Hh Hf; [lia|].
+    simpl. destruct (rstep d (RLive i p)) as [[o d'] st'] eqn:Es.
+    destruct (rstep_inv _ _ _ _ _ _ Hd Hh Es) as (A & B & _).
+    pose proof (rhinv_prefix _ _ _ A B) as [x Hx].
+    pose proof (rstep_out _ _ _ _ _ Es) as Ho.
+    destruct o as [v| |]; simpl in *.
+    - destruct Ho as (i' & p' & ->). apply IH; auto. rewrite app_length. simpl.
+      assert (E : length w = length ((tr ++ [v]) ++ x)) by congruence.
+      rewrite !app_length in E. simpl in E. lia.
+    - destruct Ho as [-> Hs]; eauto. simpl in B. rewrite app_nil_r in B. subst tr. f_equal. f_equal.
+      unfold rdinv in A. rewrite Hs in A. simpl in A. destruct d'; simpl in *. congruence.
+    - contradiction.
+  Qed.
+
+  Lemma rexhaust_fresh d : rdinv d ->
+    rexhaust (S (S (length w))) d (RLive 0 []) [] = Some (w, {| cache := w; src := [] |}).
+  Proof. intros Hd. apply rexhaust_inv; simpl; auto; [split; auto; apply prefix_nil|lia]. Qed.
 End Repaired.
+
+Lemma RInv_init domain : RInv (dedup domain) (rinit domain).
+Proof. constructor; simpl; [reflexivity|intros [|h] ? ? H; discriminate]. Qed.
+
+(* THE theorem about the current iterator: every domain (duplicates allowed), every schedule of create/next/abandon
+   operations, any number of live handles *)
+Theorem cache_any_schedule_repaired domain ops h st tr :
+  nth_error (rhs (rrun ops (rinit domain))) h = Some (st, tr) ->
+  (st = RDone -> tr = dedup domain) /\ is_prefix tr (dedup domain).
+Proof.
+  intros Hn. pose proof (rrun_inv (dedup domain) ops _ (RInv_init domain)) as [Hd Hh].
+  pose proof (Hh _ _ _ Hn) as Hi. split.
+  - intros ->. exact Hi.
+  - eapply rhinv_prefix; eauto.
+Qed.
+
+Corollary cache_any_schedule_empty ops h st tr :
+  nth_error (rhs (rrun ops (rinit []))) h = Some (st, tr) -> tr = [].
+Proof.
+  intros Hn. destruct (cache_any_schedule_repaired [] ops h st tr Hn) as [_ [x Hx]].
+  change (dedup []) with (@nil hv) in Hx. symmetry in Hx. apply app_eq_nil in Hx. tauto.
+Qed.
 
 Lemma dedup_nodup_aux s : forall c, NoDup (c ++ s) -> fold_left ins s c = c ++ s.
 Proof.
@@ -542,5 +604,6 @@ Proof. intros H. unfold dedup. now rewrite dedup_nodup_aux. Qed.
 (* the repaired iterator on the two schedules that break the current one *)
 Example repaired_on_witnesses :
   rhs (rrun (sched_lost ++ [Next 0]%nat) (rinit [1; 2])) = [(RDone, [1; 2]); (RDone, [1; 2])] /\
-  rhs (rrun (sched_err ++ [Next 1; Next 0; Next 1]%nat) (rinit [1; 2])) = [(RDone, [1; 2]); (RDone, [1; 2])].
-Proof. split; vm_compute; reflexivity. Qed.
+  rhs (rrun (sched_err ++ [Next 1; Next 0; Next 1]%nat) (rinit [1; 2])) = [(RDone, [1; 2]); (RDone, [1; 2])] /\
+  rhs (rrun sched_dup (rinit [7; 7])) = [(RDone, [7]); (RDone, [7])].
+Proof. repeat split; vm_compute; reflexivity. Qed.
